@@ -25,11 +25,11 @@ TPush ==
     /\ Is("push") /\ Len(ops) + 1 = E.ud
     /\ \E lat \in LatChoices :
           /\ (IsIo(E.kind) /\ ~E.bad) \/ lat = LatLo
-          /\ Push(E.r, E.kind, E.f, E.off, E.bytes, E.len, E.tgt, E.bad, lat, E.ok)
+          /\ Push(E.r, E.tag, E.kind, E.f, E.off, E.bytes, E.len, E.tgt, E.bad, lat, E.ok)
 
 TCqe ==
     /\ Is("cqe") /\ PopSome(E.r)
-    /\ last'.ud = E.ud /\ last'.res = E.res
+    /\ last'.tag = E.tag /\ last'.res = E.res
     /\ cqs'[Len(cqs')].data = E.data
     /\ fs' = E.files
 
